@@ -141,6 +141,7 @@ def _unpicklable():
     return lambda m=memoryview(b'ab'): 1
 
 
+# APPEND ONLY: replay files address this list by index.
 # name, builder(n, a) [n: generated number, a: generated JSON-like], positional
 # (min, max), accepted kwarg names (None = any), argument kind, has defaults
 POOL = [
